@@ -149,7 +149,7 @@ def _gen_value(rng, t, fields, style):
 def gen_cases(rng, tier, h):
     fields = _sigs["__fields__"]
     names = sorted(k for k in _sigs if not k.startswith("__"))
-    per = 60 if tier == "quick" else 1500
+    per = 60 if tier == "quick" else 12000
     cases = []
     for nm in names:
         params, rt = _sigs[nm]
@@ -417,7 +417,7 @@ def _ibox(rng):
 
 
 def gen_int_cases(rng, tier):
-    per = 40 if tier == "quick" else 1500
+    per = 40 if tier == "quick" else 10000
     sig = {"i_r1_default": "", "i_b3_default": "", "i_r1_extend_s": "rs", "i_r1_extend_r": "rr", "i_r1_def_extend_s": "s",
            "i_r1_extend_def": "r", "i_r1_contains": "rs", "i_r1_empty": "r", "i_b3_extend_p": "bp", "i_b3_extend_b": "bb",
            "i_b3_def_extend_p": "p", "i_b3_extend_def": "b", "i_b3_contains": "bp", "i_b3_empty": "b", "i_b3_inter": "bb",
